@@ -340,44 +340,52 @@ def customRelease (k : KState) (acts : List CAct) : Except Crash KState :=
       | _ => go rest k pbtn
   go acts k none
 
+/-- eager-erasure marking (`mark_overridden_nonmodkeys_for_eager_erasure`) and, with
+`override-release-on-activation`, removal of the overridden non-modifier keys from the layout -/
+def eraseOverridden (k : KState) (toRemove : List Nat) : KState :=
+  let k := { k with layout := { k.layout with states := markEager toRemove k.layout.states } }
+  if k.overrideReleaseOnActivation then
+    { k with layout := { k.layout with states := k.layout.states.filter fun s =>
+        !(toRemove.any fun r => !Override.isMod r && (match s with
+          | .normalKey kc _ _ | .fakeKey kc => kc == r | _ => false)) } }
+  else k
+
+/-- caps-word: may add left shift to the wanted list, may end -/
+def applyCapsWord (k : KState) (cur : List KeyCode) : List KeyCode × KState :=
+  match k.capsWord with
+  | some cw =>
+    let (cur', cw', ended) := cw.maybeAddLsft k.mods.lsft cur
+    (cur', { k with capsWord := if ended then none else some cw' })
+  | none => (cur, k)
+
+/-- the custom event of the tick, handled after the key diff -/
+def hkcCustom (k : KState) (cur : List KeyCode) (ce : CustomEv) : Except Crash (KState × List KeyCode) :=
+  match ce with
+  | .press id => match customActs k id with
+    | .error c => .error c
+    | .ok acts => customPress k acts cur
+  | .release id => match customActs k id with
+    | .error c => .error c
+    | .ok acts => match customRelease k acts with
+      | .error c => .error c
+      | .ok k => .ok (k, cur)
+  | .noEvent => .ok (k, cur)
+
 /-- `Kanata::handle_keystate_changes` -/
 def handleKeystateChanges (k : KState) : Except Crash KState :=
   match tick k.layout with
   | .error e => .error (.layout e)
   | .ok (l, ce) =>
-    let k := { k with layout := l }
-    match applyUnmodEvent k ce with
+    match applyUnmodEvent { k with layout := l } ce with
     | .error c => .error c
     | .ok (k, reverse) =>
-      let cur := adjustKeys k (k.curKeys ++ k.layout.keycodes)
-      match k.overrides.overrideKeys cur k.overrideStates with
+      match k.overrides.overrideKeys (adjustKeys k (k.curKeys ++ k.layout.keycodes)) k.overrideStates with
       | .error c => .error (.override c)
       | .ok (cur, ost) =>
-        let k := { k with overrideStates := ost }
-        let k := { k with layout := { k.layout with states := markEager ost.toRemove k.layout.states } }
-        let k := if k.overrideReleaseOnActivation then
-            { k with layout := { k.layout with states := k.layout.states.filter fun s =>
-                !(ost.toRemove.any fun r => !Override.isMod r && (match s with
-                  | .normalKey kc _ _ | .fakeKey kc => kc == r | _ => false)) } }
-          else k
-        let (cur, k) := match k.capsWord with
-          | some cw =>
-            let (cur', cw', ended) := cw.maybeAddLsft k.mods.lsft cur
-            (cur', { k with capsWord := if ended then none else some cw' })
-          | none => (cur, k)
-        let k := releaseOld k cur reverse
-        let k := pressNew k cur
-        let r : Except Crash (KState × List KeyCode) := match ce with
-          | .press id => match customActs k id with
-            | .error c => .error c
-            | .ok acts => customPress k acts cur
-          | .release id => match customActs k id with
-            | .error c => .error c
-            | .ok acts => match customRelease k acts with
-              | .error c => .error c
-              | .ok k => .ok (k, cur)
-          | .noEvent => .ok (k, cur)
-        match r with
+        let k := eraseOverridden { k with overrideStates := ost } ost.toRemove
+        let (cur, k) := applyCapsWord k cur
+        let k := pressNew (releaseOld k cur reverse) cur
+        match hkcCustom k cur ce with
         | .error c => .error c
         | .ok (k, cur) => .ok { k with curKeys := cur }
 
